@@ -149,6 +149,8 @@ func runC08(c *Ctx, r *Rng, sc c08Scenario, idx int) {
 		ctx, cancel = context.WithTimeoutCause(ctx, 60*time.Millisecond, errors.New("caller's own deadline reason"))
 	case "deadline":
 		ctx, cancel = context.WithTimeout(ctx, 60*time.Millisecond)
+	case "deadline-short":
+		ctx, cancel = context.WithTimeout(ctx, time.Duration(15+r.Intn(25))*time.Millisecond)
 	case "deadline-long":
 		ctx, cancel = context.WithTimeout(ctx, 400*time.Millisecond)
 	case "none":
@@ -223,6 +225,12 @@ func runC08(c *Ctx, r *Rng, sc c08Scenario, idx int) {
 	}
 	if parentErr != nil && xerr != nil && xerr != parentErr && xerr == context.Cause(ctx) {
 		c.Fail("spec", "Exchange", sc.name, key, fmt.Sprintf("%T: %v", xerr, xerr), fmt.Sprintf("%T: %v", parentErr, parentErr), "when the context has ended the call returns the context's own error (ctx.Err()), not the cause the caller attached to it")
+	}
+	if parentErr != nil && xerr != nil && xerr != parentErr && sc.peer != "closed" && reply == nil {
+		if _, nonAuth := xerr.(*radius.NonAuthenticResponseError); !nonAuth && (sc.peer == "silent" || sc.peer == "stream") {
+			// the peer is reachable and sent nothing acceptable; the only reason to return is the context
+			c.Fail("spec", "Exchange", sc.name, key, fmt.Sprintf("%T: %v", xerr, xerr), fmt.Sprintf("%T: %v", parentErr, parentErr), "after the context's deadline has passed the call returns the context's own error, not a socket timeout or any other error that merely coincides with it")
+		}
 	}
 	if sc.name == "silent-interval" || sc.name == "stream-interval" {
 		// while it waits it keeps retransmitting at the configured interval: a generous lower bound (a third of the
@@ -404,7 +412,7 @@ func loopbackRefuses() bool {
 
 func init() {
 	props["C08"] = func(c *Ctx) {
-		c.Res.Rule = "real Client.Exchange over loopback UDP: peer behaviour {silent, garbage flood, steady stream of wrongly signed replies faster than Retry, late authentic reply, closed port} x Retry {-1, 0, 5 ms, 1 h} x MaxPacketErrors {0, 3} x cancellation {none, before the call, after the first datagram, deadline; the last two also with a caller-supplied cause}. Checked directly: return class, context error only when the context ended and promptly (generous bounds), byte-identical retransmissions, exactly one transmission for Retry <= 0, nothing sent after return, no goroutine of Exchange alive after return; the run is translated into an event sequence of the lifecycle model and the model's result compared. non-trivial = run with a cancellation or more than one transmission"
+		c.Res.Rule = "real Client.Exchange over loopback UDP: peer behaviour {silent, garbage flood, steady stream of wrongly signed replies faster than Retry, late authentic reply, closed port} x Retry {-1, 0, 5 ms, 1 h} x MaxPacketErrors {0, 3} x cancellation {none, before the call, after the first datagram, deadline; the last two also with a caller-supplied cause}, plus a burst of 30 (200) exchanges with 15..40 ms deadlines against a silent peer. Checked directly: return class, context error only when the context ended and promptly (generous bounds), byte-identical retransmissions, exactly one transmission for Retry <= 0, nothing sent after return, no goroutine of Exchange alive after return; the run is translated into an event sequence of the lifecycle model and the model's result compared. non-trivial = run with a cancellation or more than one transmission"
 		r := c.Rng.Fork()
 		retries := []time.Duration{-1, 0, 5 * time.Millisecond, time.Hour}
 		var scs []c08Scenario
@@ -433,6 +441,11 @@ func init() {
 		}
 		reps := c.N(1, 8)
 		idx := 0
+		// many short deadlines against a silent peer: every one must end with the context's own error
+		for k := 0; k < c.N(30, 200); k++ {
+			runC08(c, r, c08Scenario{"deadline-burst", "silent", 0, 0, "deadline-short", 0}, idx)
+			idx++
+		}
 		for rep := 0; rep < reps; rep++ {
 			for _, sc := range scs {
 				runC08(c, r, sc, idx)
@@ -441,6 +454,6 @@ func init() {
 		}
 		c.Trivial("closed-port")
 		c.Flush()
-		c.RequireTags("silent-cancel", "silent-deadline", "flood-cancel", "late-reply", "expired-before", "late-reply-after-retries", "silent-interval", "stream-interval", "cancel-with-cause", "deadline-with-cause")
+		c.RequireTags("silent-cancel", "silent-deadline", "flood-cancel", "late-reply", "expired-before", "late-reply-after-retries", "silent-interval", "stream-interval", "cancel-with-cause", "deadline-with-cause", "deadline-burst")
 	}
 }
